@@ -422,6 +422,17 @@ func c20Exchange(t *testing.T, s *verifh.Session, r *rand.Rand, o *c20Origin, mo
 		}
 	}
 	normalised := false
+	if len(seen) == 2 && resp.Err == nil && resp.StatusCode == 200 && method != "HEAD" {
+		// informational only (outside the property): which body does the caller see after the resend?
+		switch resp.String() {
+		case "granted":
+			count("note:final-body=second-response")
+		case sc.firstBody:
+			count("note:final-body=stale-401-body")
+		default:
+			count("note:final-body=other")
+		}
+	}
 	if len(seen) >= 2 {
 		second := seen[1]
 		if second.method != seen[0].method || second.uri != seen[0].uri {
